@@ -50,7 +50,7 @@ func runC01(c *Ctx) {
 
 // C02: every generated / reference-valid sentence validates.
 func runC02(c *Ctx) {
-	c.res.Rule = "entropy scopes x 10 languages; per (entropy, language): CheckMnemonic and IsMnemonicValid on (a) the implementation's own NewMnemonicByEntropy output and (b) the reference sentence joined by U+0020 and (c) by U+3000; plus NewMnemonic through a scripted source for 5 counts x 10 languages x 64 byte patterns; plus a valid sentence validated right after each of 7 kinds of failing validation; distinct_nontrivial = distinct entropies"
+	c.res.Rule = "entropy scopes x 10 languages; per (entropy, language): CheckMnemonic and IsMnemonicValid on (a) the implementation's own NewMnemonicByEntropy output and (b) the reference sentence joined by U+0020 and (c) by U+3000; plus NewMnemonic through a scripted source for 5 counts x 10 languages x 64 byte patterns; plus a valid sentence validated right after each of 10 kinds of failing validation (on the same and on a bit-complementary sentence); distinct_nontrivial = distinct entropies"
 	c.Assume("golden lists are canonical", "only canonical single-separator sentences are demanded to validate")
 	var leadZero [3]int64
 	var lzMu sync.Mutex
@@ -147,6 +147,18 @@ func runC02(c *Ctx) {
 					t[p] = "zz" + t[p]
 					fails = append(fails, strings.Join(t, " "))
 				}
+				// the same kinds of failure on a sentence with the complementary bits, so that
+				// whatever a failed call leaves behind differs from what the valid one needs
+				comp := make([]byte, len(e))
+				for i := range e {
+					comp[i] = ^e[i]
+				}
+				cw := c.M.Words(comp, l)
+				for _, p := range []int{1, len(cw) / 2, len(cw) - 1} {
+					t := append([]string(nil), cw...)
+					t[p] = "zz" + t[p]
+					fails = append(fails, strings.Join(t, " "))
+				}
 				t := append([]string(nil), words...)
 				t[len(t)-1] = c.M.List[l][(c.M.Dict[l][t[len(t)-1]]+1)%2048]
 				fails = append(fails, strings.Join(t, " "), strings.Join(words[:len(words)-1], " "), "")
@@ -164,7 +176,7 @@ func runC02(c *Ctx) {
 			}
 		}
 	}
-	c.AddScope("valid sentence right after each of 7 kinds of failing validation (sequential)", nAfter, true, "")
+	c.AddScope("valid sentence right after each of 10 kinds of failing validation (sequential)", nAfter, true, "")
 	// (d) sentences made of the longest / shortest list words (where any size limit bites first)
 	var nExt int64
 	for l := 0; l < ref.NLang; l++ {
